@@ -754,6 +754,32 @@ func encCase(o *hx.Out, cat string, m chat.Message) {
 	if uerr := nbt.Unmarshal(named, &back2); uerr != nil || !sameMsg(back2, m) {
 		o.Fail("C17.nbt.roundtrip.named", "m=%s named=%s back=%s err=%v", showMsg(m), hx.Hex(named), showMsg(back2), uerr)
 	}
+	// P: the JSON image is ONE object with the same keys as the NBT compound, in struct order
+	if perr == nil && (jt.k != 'O' || !reflect.DeepEqual(append([]string{}, jt.keys...), append([]string{}, expectedKeys(m)...))) {
+		o.Fail("C17.json.keys", "m=%s json=%s keys=%v want=%v", showMsg(m), js, jt.keys, expectedKeys(m))
+	}
+	// P: Text and Translate together: both keys with both values in both images, both back from both forms
+	if m.Text != "" && m.Translate != "" {
+		has := func(keys []string, val func(i int) (string, bool), k, want string) bool {
+			n := 0
+			for i := range keys {
+				if keys[i] == k {
+					if v, ok := val(i); !ok || v != want {
+						return false
+					}
+					n++
+				}
+			}
+			return n == 1
+		}
+		nv := func(i int) (string, bool) { return t.l[i].s, t.l[i].id == 8 }
+		jvv := func(i int) (string, bool) { return jt.l[i].s, jt.l[i].k == 'S' }
+		if !ok || !has(t.keys, nv, "text", m.Text) || !has(t.keys, nv, "translate", m.Translate) ||
+			perr != nil || !has(jt.keys, jvv, "text", m.Text) || !has(jt.keys, jvv, "translate", m.Translate) ||
+			back.Text != m.Text || back.Translate != m.Translate || jback.Text != m.Text || jback.Translate != m.Translate {
+			o.Fail("C17.both.keys", "m=%s wire=%s json=%s nbt-back=%s json-back=%s", showMsg(m), hx.Hex(b), js, showMsg(back), showMsg(jback))
+		}
+	}
 	// P: JSON round trip
 	if juerr != nil || !sameMsg(jback, m) || hasContents(jback) {
 		o.Fail("C17.json.roundtrip", "m=%s json=%s back=%s err=%v", showMsg(m), js, showMsg(jback), juerr)
@@ -1245,6 +1271,33 @@ func main() {
 		encCase(o, "enc.boundary", m)
 		renderCase(o, "render.boundary", m)
 	}
+	// 1b. Text AND Translate both non-empty (the translateMsg shape with its omitempty "text" written): at the root,
+	// as an argument (alone, beside a bare string), as an extra, as a hover value, with arguments and extras of its
+	// own, every pool string as the text, every key of the table
+	{
+		var both []chat.Message
+		for _, k := range keyPool {
+			both = append(both, chat.Message{Text: "t", Translate: k})
+		}
+		for _, s := range strPool {
+			if s != "" {
+				both = append(both, chat.Message{Text: s, Translate: "k1", With: chat.TranslateArgs{s}})
+			}
+		}
+		b0 := chat.Message{Text: "T", Translate: "k1", With: chat.TranslateArgs{leaf}}
+		both = append(both, b0,
+			chat.Message{Text: "T", Translate: "k2", With: chat.TranslateArgs{"bare", b0}, Extra: []chat.Message{b0, leaf}},
+			chat.Message{Translate: "k1", With: chat.TranslateArgs{b0}},
+			chat.Message{Translate: "k2", With: chat.TranslateArgs{b0, "bare"}},
+			chat.Message{Extra: []chat.Message{b0}},
+			chat.Message{HoverEvent: chat.ShowText(b0)},
+			chat.Message{Text: "T", Bold: true, Color: "red", Translate: "k0", HoverEvent: chat.ShowText(b0), Extra: []chat.Message{{Text: "e", Translate: "ke"}}},
+			chat.Message{Text: " ", Translate: " "})
+		for _, m := range both {
+			encCase(o, "enc.both", m)
+			renderCase(o, "render.both", m)
+		}
+	}
 	// 2. the grammar to depth 4
 	n := o.N(2500, 12)
 	var corpus []chat.Message
@@ -1347,6 +1400,31 @@ func main() {
 	}
 	for c := 0; c < 256; c++ {
 		stripCase(o, "strip.everybyte", "x§"+string([]byte{byte(c)})+"y")
+	}
+	// 6b. boundaries, for every byte of the pattern's class (the table's keys, k/K, the upper-case letters) and a
+	// byte outside it: the string that is just a code, a code as the last three bytes, at the start, consecutive
+	// codes, a code before / after a lone section sign, a code formed by juxtaposition, truncated section signs,
+	// the Kelvin sign that (?i) adds to K; then the same strings rendered as Text, as a bare string argument, as
+	// the Text of a component argument and of an extra
+	{
+		class := "0123456789abcdefklmnorABCDEFKLMNOR"
+		var bs []string
+		for i := 0; i < len(class); i++ {
+			c := "§" + class[i:i+1]
+			bs = append(bs, c, "ab"+c, c+"ab", c+c, c+c+c, "a"+c+c+"b", c+"§", "§"+c, "§§"+class[i:i+1]+class[i:i+1],
+				"\xc2"+class[i:i+1], "\xa7"+class[i:i+1], "\xc2"+c, "§\xc2"+c, c+"\xc2", c+"\xc2\xa7")
+		}
+		bs = append(bs, "§\u212a", "x§\u212ay", "§\u212a§a", "§a§\u212a", "§g", "§z§a", "§§", "§", "\xc2", "\xa7", "§\xc2", "§\xc2\xa7", "§r§l§0", "§0§1§2§3§4§5§6§7§8§9§a§b§c§d§e§f§l§m§n§o§r",
+			"§\xff", "§\x00", "§a\x00", "\xe2\x84§a", "§\xe2\x84\xaa")
+		for _, s := range bs {
+			stripCase(o, "strip.boundary", s)
+		}
+		for i, s := range bs {
+			if i%3 == 0 || i >= len(bs)-25 {
+				renderCase(o, "render.codes", chat.Message{Text: s, Translate: "k2", With: chat.TranslateArgs{s, chat.Text(s)},
+					Extra: []chat.Message{chat.Text(s), {Translate: "k1", With: chat.TranslateArgs{s}}}})
+			}
+		}
 	}
 	for i := 0; i < o.N(1500, 10); i++ {
 		var sb strings.Builder
